@@ -26,7 +26,8 @@ def make_adapter(p, calmap, pnoise, snoise, k, cse=True, max_dt=0.1):
     from formak import python
 
     st = p.symtab()
-    cfg = python.Config(common_subexpression_elimination=cse, innovation_filtering=k, max_dt_sec=max_dt)
+    # max_dt == "no-config": the estimator is created without a configuration (the library's default)
+    cfg = None if max_dt == "no-config" else python.Config(common_subexpression_elimination=cse, innovation_filtering=k, max_dt_sec=max_dt)
     return python.SklearnEKFAdapter.Create(p.ui_model(), {st[c]: pnoise[c] for c in p.control}, p.sympy_sensors(), {key: dict(snoise[key]) for key in p.sensors}, calmap, config=cfg)
 
 
@@ -426,7 +427,7 @@ def _dispatch(fn, args):
 def run(tier, seed):
     rep = Report(PID, tier, seed, "translation_validation")
     cfgs = configs(tier, seed)
-    vts = [(CP.P3(), None, 1, 0.05), (CP.P25(), None, 2, 0.25), (CP.P1(), 4.0, 2, 0.03125), (CP.P8(), None, 2, 0.25), (CP.P17(), None, 2, 0.25), (CP.P16(), None, 1, 0.25), (CP.P12(), None, 2, 0.25)]
+    vts = [(CP.P3(), None, 1, 0.05), (CP.P25(), None, 2, 0.25), (CP.P1(), 4.0, 2, 0.03125), (CP.P8(), None, 2, 0.25), (CP.P17(), None, 2, 0.25), (CP.P16(), None, 1, 0.25), (CP.P12(), None, 2, 0.25), (CP.P1(), 5.0, 2, "no-config")]
     if tier != "quick":
         vts += [(CP.P25(), 4.0, 1, 0.05), (CP.P10(), None, 1, 0.0625), (CP.P17(), None, 1, 0.05)]
     tasks = [(task, (p, k, rows, tier, seed)) for p, k, rows in cfgs] + [(task_variants, (p, k, rows, md, tier, seed)) for p, k, rows, md in vts]
